@@ -783,4 +783,5 @@ SELFTESTS = [
     (rule_static_state, ["c09_bad.c"], ["c09_good.c"], "carry"),
     (rule_failures_propagate, ["c09_bad.c"], ["c09_good.c"], "exitval"),
     (rule_extension_needs_byte, ["c09_bad.c"], ["c09_good.c"], "handle_ext"),
+    (rule_eof_before_use, ["c09_bad.c"], ["c09_good.c"], "c:width"),
 ]
